@@ -82,7 +82,9 @@ def materialise(kinds, variant: int = 0) -> str:
         elif k == "privassign":
             s = f"_a{i} = {P}({i})"
         elif k == "tupassign":
-            s = f"(t{i}, u{i}) = ({P}({i}), 0)" if alt == 0 else f"[t{i}, u{i}] = [{P}({i}), 0]"
+            box = '__import__("harness.c19_probe", fromlist=["BOX"]).BOX'
+            s = [f"(t{i}, u{i}) = ({P}({i}), 0)", f"[t{i}, u{i}] = [{P}({i}), 0]",
+                 f"{box}.x{i} = {P}({i})", f'{box}.d["k{i}"] = {P}({i})'][variant % 4]
         elif k == "doc_dir":
             s = (f'"""\nDoc {i}.\n\n:laws:symbol::\n\n:laws:latex::\n"""' if alt == 0
                  else f'"""Doc {i} :laws:latex::"""')
